@@ -16,6 +16,7 @@ MsgsA == {<<A("a")>>, <<A("b")>>, <<>>}
 KeysAT == {1, 2, -1}
 MsgsAT == {<<A("a")>>, <<A("b")>>, <<A("c")>>, <<>>}
 ModesSingle == {"single"}
+ModesKeygen == {"keygen", "pop"}
 ModesPop == {"pop"}
 ModesAgg == {"agg"}
 ModesMulti == {"multi"}
